@@ -221,6 +221,34 @@ func (f *File) Close() error {
 	return nil
 }
 
+// Seek: regular files are seekable like the *os.File that os.Open returns (code may assert
+// io.Seeker on what it opened).
+func (f *File) Seek(offset int64, whence int) (int64, error) {
+	if f.closed {
+		return 0, os.ErrClosed
+	}
+	f.w.mu.Lock()
+	defer f.w.mu.Unlock()
+	var base int64
+	switch whence {
+	case io.SeekStart:
+	case io.SeekCurrent:
+		base = int64(*f.pos)
+	case io.SeekEnd:
+		base = int64(len(f.spec.Data))
+	default:
+		return 0, &fs.PathError{Op: "seek", Path: f.name, Err: syscall.EINVAL}
+	}
+	if base+offset < 0 {
+		return 0, &fs.PathError{Op: "seek", Path: f.name, Err: syscall.EINVAL}
+	}
+	*f.pos = int(base + offset)
+	return base + offset, nil
+}
+
+// Name returns the name the file was opened with.
+func (f *File) Name() string { return f.name }
+
 type fileInfo struct {
 	name string
 	mode os.FileMode
